@@ -17,7 +17,10 @@
     Scope.  The theorems are TOTAL over the allowed alphabet: any arguments
     (dead or unknown handles, undeclared names, unknown operators), either
     outcome ([Ok] or [Err], the state of an [Err] being the state at the raise
-    point).  Dynamic reordering is disabled ([last_len = None]).  Outside the
+    point; a [RuntimeError] of a full table, [max_nodes], included: in the
+    comparisons [u <= v], [u < v] the temporary [~ self] dies with the frame
+    that the exception unwinds).  Dynamic reordering is disabled
+    ([last_len = None]).  Outside the
     alphabet: [AReorder] (covered conditionally by
     [C08_with_reorder_partial]), [AConfigure (Some true)] and
     [ASetLastLen (Some _)] (they enable dynamic reordering), [AShutdown]
